@@ -10,6 +10,8 @@ package otlpretry
 
 import (
 	"context"
+	"bytes"
+	"compress/gzip"
 	"crypto/sha256"
 	"errors"
 	"fmt"
@@ -214,6 +216,7 @@ type world struct {
 	sdCalled bool
 
 	expTimeout time.Duration
+	sawGzip    bool
 }
 
 // effective turns a scripted outcome into what the client can observe: the HTTP exporters apply their
@@ -278,6 +281,16 @@ func (h *httpCollector) dial(ctx context.Context, _, _ string) (net.Conn, error)
 
 func (h *httpCollector) ServeHTTP(rw http.ResponseWriter, req *http.Request) {
 	body, _ := io.ReadAll(req.Body)
+	if req.Header.Get("Content-Encoding") == "gzip" {
+		if zr, err := gzip.NewReader(bytes.NewReader(body)); err == nil {
+			if plain, err := io.ReadAll(zr); err == nil {
+				body = plain
+				h.w.mu.Lock()
+				h.w.sawGzip = true
+				h.w.mu.Unlock()
+			}
+		}
+	}
 	h.w.setHash(fmt.Sprintf("%x", sha256.Sum256(body))[:16])
 	h.lastMu.Lock()
 	oc := h.last
@@ -398,6 +411,7 @@ func (engine) Body(r *simdrv.Run) {
 	rc.max = rc.initial * time.Duration([]int{1, 2, 5}[r.Cfg(3)])
 	rc.maxTotal = []time.Duration{0, 50 * time.Millisecond, 2 * time.Second, 30 * time.Second, time.Minute}[r.Cfg(5)]
 	expTimeout := []time.Duration{100 * time.Millisecond, 5 * time.Second, 30 * time.Second, 2 * time.Minute}[r.Cfg(4)]
+	useGzip := r.Cfg(3) == 0
 	nCalls := 1 + r.Cfg(2)
 	lat := []time.Duration{0, 0, time.Millisecond, 300 * time.Millisecond, 3 * time.Second}
 	for c := 0; c < nCalls; c++ {
@@ -430,6 +444,7 @@ func (engine) Body(r *simdrv.Run) {
 	}
 	ctxTimeout := []time.Duration{0, 0, 150 * time.Millisecond, 4 * time.Second, 20 * time.Second}[r.Cfg(5)]
 	shutdownAt := []time.Duration{-1, -1, -1, 0, 50 * time.Millisecond, 999 * time.Millisecond, time.Second, 1001 * time.Millisecond, 6 * time.Second}[r.Cfg(9)]
+	r.Res.Config["gzip"] = useGzip
 	r.Res.Config["exporter"] = kind
 	r.Res.Config["retry"] = fmt.Sprintf("%+v", rc)
 	r.Res.Config["exporter_timeout"] = expTimeout.String()
@@ -480,7 +495,7 @@ func (engine) Body(r *simdrv.Run) {
 		creds := grpc.WithTransportCredentials(insecure.NewCredentials())
 		switch kind {
 		case "tracegrpc":
-			e, e2 := otlptracegrpc.New(ctx0, otlptracegrpc.WithEndpoint("passthrough:///sim"), otlptracegrpc.WithInsecure(), otlptracegrpc.WithDialOption(dial, creds), otlptracegrpc.WithTimeout(expTimeout),
+			e, e2 := otlptracegrpc.New(ctx0, otlptracegrpc.WithEndpoint("passthrough:///sim"), otlptracegrpc.WithInsecure(), otlptracegrpc.WithDialOption(dial, creds), otlptracegrpc.WithTimeout(expTimeout), otlptracegrpc.WithCompressor(map[bool]string{true: "gzip", false: ""}[useGzip]),
 				otlptracegrpc.WithRetry(otlptracegrpc.RetryConfig{Enabled: rc.enabled, InitialInterval: rc.initial, MaxInterval: rc.max, MaxElapsedTime: rc.maxTotal}))
 			err = e2
 			if e != nil {
@@ -489,14 +504,14 @@ func (engine) Body(r *simdrv.Run) {
 				}, shutdown: e.Shutdown}
 			}
 		case "metricgrpc":
-			e, e2 := otlpmetricgrpc.New(ctx0, otlpmetricgrpc.WithEndpoint("passthrough:///sim"), otlpmetricgrpc.WithInsecure(), otlpmetricgrpc.WithDialOption(dial, creds), otlpmetricgrpc.WithTimeout(expTimeout),
+			e, e2 := otlpmetricgrpc.New(ctx0, otlpmetricgrpc.WithEndpoint("passthrough:///sim"), otlpmetricgrpc.WithInsecure(), otlpmetricgrpc.WithDialOption(dial, creds), otlpmetricgrpc.WithTimeout(expTimeout), otlpmetricgrpc.WithCompressor(map[bool]string{true: "gzip", false: ""}[useGzip]),
 				otlpmetricgrpc.WithRetry(otlpmetricgrpc.RetryConfig{Enabled: rc.enabled, InitialInterval: rc.initial, MaxInterval: rc.max, MaxElapsedTime: rc.maxTotal}))
 			err = e2
 			if e != nil {
 				ex = exporterUT{export: func(ctx context.Context, call int) error { return e.Export(ctx, mkMetrics(call)) }, shutdown: e.Shutdown}
 			}
 		default:
-			e, e2 := otlploggrpc.New(ctx0, otlploggrpc.WithEndpoint("passthrough:///sim"), otlploggrpc.WithInsecure(), otlploggrpc.WithDialOption(dial, creds), otlploggrpc.WithTimeout(expTimeout),
+			e, e2 := otlploggrpc.New(ctx0, otlploggrpc.WithEndpoint("passthrough:///sim"), otlploggrpc.WithInsecure(), otlploggrpc.WithDialOption(dial, creds), otlploggrpc.WithTimeout(expTimeout), otlploggrpc.WithCompressor(map[bool]string{true: "gzip", false: ""}[useGzip]),
 				otlploggrpc.WithRetry(otlploggrpc.RetryConfig{Enabled: rc.enabled, InitialInterval: rc.initial, MaxInterval: rc.max, MaxElapsedTime: rc.maxTotal}))
 			err = e2
 			if e != nil {
@@ -512,7 +527,7 @@ func (engine) Body(r *simdrv.Run) {
 		case "tracehttp":
 			otlptracehttp.VerifSimSetDial(hc.dial)
 			cleanup = append(cleanup, otlptracehttp.VerifSimCloseIdle)
-			e, e2 := otlptracehttp.New(ctx0, otlptracehttp.WithEndpoint("sim:4318"), otlptracehttp.WithInsecure(), otlptracehttp.WithTimeout(expTimeout),
+			e, e2 := otlptracehttp.New(ctx0, otlptracehttp.WithEndpoint("sim:4318"), otlptracehttp.WithInsecure(), otlptracehttp.WithTimeout(expTimeout), otlptracehttp.WithCompression(map[bool]otlptracehttp.Compression{true: otlptracehttp.GzipCompression, false: otlptracehttp.NoCompression}[useGzip]),
 				otlptracehttp.WithRetry(otlptracehttp.RetryConfig{Enabled: rc.enabled, InitialInterval: rc.initial, MaxInterval: rc.max, MaxElapsedTime: rc.maxTotal}))
 			err = e2
 			if e != nil {
@@ -523,7 +538,7 @@ func (engine) Body(r *simdrv.Run) {
 		case "metrichttp":
 			otlpmetrichttp.VerifSimSetDial(hc.dial)
 			cleanup = append(cleanup, otlpmetrichttp.VerifSimCloseIdle)
-			e, e2 := otlpmetrichttp.New(ctx0, otlpmetrichttp.WithEndpoint("sim:4318"), otlpmetrichttp.WithInsecure(), otlpmetrichttp.WithTimeout(expTimeout),
+			e, e2 := otlpmetrichttp.New(ctx0, otlpmetrichttp.WithEndpoint("sim:4318"), otlpmetrichttp.WithInsecure(), otlpmetrichttp.WithTimeout(expTimeout), otlpmetrichttp.WithCompression(map[bool]otlpmetrichttp.Compression{true: otlpmetrichttp.GzipCompression, false: otlpmetrichttp.NoCompression}[useGzip]),
 				otlpmetrichttp.WithRetry(otlpmetrichttp.RetryConfig{Enabled: rc.enabled, InitialInterval: rc.initial, MaxInterval: rc.max, MaxElapsedTime: rc.maxTotal}))
 			err = e2
 			if e != nil {
@@ -532,7 +547,7 @@ func (engine) Body(r *simdrv.Run) {
 		default:
 			otlploghttp.VerifSimSetDial(hc.dial)
 			cleanup = append(cleanup, otlploghttp.VerifSimCloseIdle)
-			e, e2 := otlploghttp.New(ctx0, otlploghttp.WithEndpoint("sim:4318"), otlploghttp.WithInsecure(), otlploghttp.WithTimeout(expTimeout),
+			e, e2 := otlploghttp.New(ctx0, otlploghttp.WithEndpoint("sim:4318"), otlploghttp.WithInsecure(), otlploghttp.WithTimeout(expTimeout), otlploghttp.WithCompression(map[bool]otlploghttp.Compression{true: otlploghttp.GzipCompression, false: otlploghttp.NoCompression}[useGzip]),
 				otlploghttp.WithRetry(otlploghttp.RetryConfig{Enabled: rc.enabled, InitialInterval: rc.initial, MaxInterval: rc.max, MaxElapsedTime: rc.maxTotal}))
 			err = e2
 			if e != nil {
@@ -621,6 +636,9 @@ func (engine) Body(r *simdrv.Run) {
 	case simrt.Hang:
 		r.Violate(prop, "blocks-forever", "blocks-forever/"+kind, "an export or shutdown call never returned: %s", out.Detail)
 		return
+	}
+	if w.sawGzip {
+		r.Probe("gzip-payload")
 	}
 	w.oracle(kind, rc)
 }
